@@ -407,6 +407,7 @@ OPTION_VARIANTS: Dict[str, List[str]] = {
     'viewsource': ['--html-viewsource-base', 'http://example.org/src', '--project-base-dir', '.'], 'process-types': ['--process-types'], 'theme-classic': ['--theme', 'classic'],
     'theme-rtd': ['--theme', 'readthedocs'], 'summary-pages-only': ['--html-summary-pages'], 'warnings-as-errors': ['-W'], 'verbose': ['-vv'], 'project-url': ['--project-url', 'http://example.org/'],
     'hidden-everything': ['--privacy', 'HIDDEN:**'], 'hidden-roots': ['--privacy', 'HIDDEN:pk', '--privacy', 'HIDDEN:other', '--privacy', 'HIDDEN:dup', '--privacy', 'HIDDEN:dupm'],
+    'subject-unknown': ['--html-subject', 'pk.nosuch.Thing', '--html-subject', 'pk'], 'subject-unknown-only': ['--html-subject', 'nosuchroot'],
     'private-everything': ['--privacy', 'PRIVATE:**'], 'hidden-privates': ['--privacy', 'HIDDEN:**._*'], 'public-everything': ['--privacy', 'PUBLIC:**'],
 }
 
